@@ -174,6 +174,9 @@ func UpdateWebSocketHeader(secWebSocketKey, protocol string) []byte {
 	return []byte(webSocketResponseHeaderStr)
 }
 
+// wsMaxReadPayloadLength ReadWsPayload 接受的单帧负载长度上限
+const wsMaxReadPayloadLength = 16 * 1024 * 1024
+
 func ReadWsPayload(r *bufio.Reader) ([]byte, error) {
 	var h WsHeader
 
@@ -227,6 +230,11 @@ func ReadWsPayload(r *bufio.Reader) ([]byte, error) {
 		}
 
 		h.MaskKey = bele.BeUint32(buf)
+	}
+
+	// 长度字段由对端填写，不能直接据此分配内存
+	if h.PayloadLength > wsMaxReadPayloadLength {
+		return nil, fmt.Errorf("websocket payload too large. len=%d", h.PayloadLength)
 	}
 
 	payload := make([]byte, h.PayloadLength)
